@@ -153,16 +153,30 @@ def generate(rng: Prng, tier: str) -> dict:
             # ONE PopulationTransform object per run, applied again and again - also to its own result (a pipeline
             # stage used twice): every application transforms the trees it is given
             o["shared"] = hp.chance(0.6)
+            o["delta"] = hp.choice([1, 1, 2, 3])
             if hp.chance(0.5):
-                ops2.append({"op": "ptrans", "h": -1, "shared": True})
+                ops2.append({"op": "ptrans", "h": -1, "shared": True, "delta": hp.choice([1, 2, 5])})
                 if hp.chance(0.5):
                     ops2.append({"op": "idx", "h": -1, "i": hp.randint(-3, 3)})
+            elif o["shared"] and hp.chance(0.6):
+                # a sweep: apply, change the parameter, apply again - and only then look at the first result
+                o["defer"] = True
+                ops2.append({"op": "ptrans", "h": o["h"], "shared": True, "delta": o["delta"] + hp.choice([1, 3])})
+                ops2.append({"op": "idx", "h": -2, "i": hp.choice([1, -1, 2])})
+                ops2.append({"op": "idx", "h": -2, "i": hp.choice([0, 1, -2])})
         elif o["op"] == "map" and not o.get("verbose"):
             # a parameter sweep: the mapped function reads a module-level parameter the caller changes between two
             # map calls with the same worker count
             o["param"] = hp.randint(1, 9)
             if hp.chance(0.6):
                 ops2.append(dict(o, param=o["param"] + hp.randint(1, 9)))
+            if hp.chance(0.35):
+                # the mapped function scribbles on the tree it is given (its own copy, across a process boundary);
+                # the population is asked for the same trees afterwards
+                o["scribble"] = True
+                o["max_worker"] = hp.choice([1, 1, o["max_worker"]])
+                ops2.append({"op": "idx", "h": o["h"], "i": hp.randint(-3, 3)})
+                ops2.append({"op": "iter", "h": o["h"], "m": hp.choice([None, 2])})
     ops = ops2
     # a run always starts with something to talk about
     if not any(o["op"] in ("pop", "pops") for o in ops[:2]):
@@ -194,6 +208,14 @@ def generate(rng: Prng, tier: str) -> dict:
 # functions that cross the (simulated) process boundary must be importable
 
 
+def ident_then_scribble(tree):
+    """A mapped function that uses its argument as scratch space: in a worker process that is the worker's copy."""
+    out = ident_of(tree)
+    tree.ndata["x"][0] += 0.5
+    tree.ndata["r"][:] = 77.0
+    return out
+
+
 MAP_PARAM = 0  # read by ident_of in the (simulated) worker process; set by the caller before a map call
 
 
@@ -205,11 +227,14 @@ def _make_mark_transform():
     from swcgeom.transforms.base import Transform
 
     class Mark(Transform):
-        """Tree -> Tree: a copy whose radii are increased by one."""
+        """Tree -> Tree: a copy whose radii are increased by `delta` (a parameter the caller may change between
+        applications, as in a parameter sweep)."""
+
+        delta = 1.0
 
         def __call__(self, x):
             y = x.copy()
-            y.ndata["r"] = y.ndata["r"] + 1
+            y.ndata["r"] = y.ndata["r"] + float(self.delta)
             return y
 
     return Mark()
@@ -258,8 +283,8 @@ class Handle:
         if self.kind == "S":
             return self.parent.resolve(self.idxs[j])
         if self.kind == "T":
-            b, k, depth = self.parent.resolve(j)
-            return (b, k, int(depth) + 1)  # how many transforms deep
+            b, k, amount = self.parent.resolve(j)
+            return (b, k, float(amount) + float(getattr(self, "delta", 1.0)))  # what the transforms added so far
         if self.kind == "W":
             return self.parent.resolve(j)
         if self.kind in ("C", "CP"):
@@ -328,7 +353,7 @@ class Sim:
                 or [int(v) for v in tree.type()] != [1, 3, 3]:
             raise Violation("wrong_tree", op, f"tree {rel} is not the file's tree under the population's read options: "
                             f"pid {[int(v) for v in tree.pid()]}, y {[float(v) for v in tree.y()]}")
-        want_r = 1.0 + int(transformed)  # every application of the marking transform adds one
+        want_r = 1.0 + float(transformed)  # every application of the marking transform adds its delta of that moment
         if float(tree.r()[0]) != want_r:
             raise Violation("wrong_tree", op, f"tree {rel}: radius {float(tree.r()[0])}, expected {want_r}")
         if j in base.known:
@@ -656,7 +681,8 @@ class Sim:
                 global MAP_PARAM
                 MAP_PARAM = int(op.get("param", 0))
                 try:
-                    res = h.obj.map(ident_of, max_worker=op["max_worker"], verbose=op["verbose"])
+                    fn = ident_then_scribble if op.get("scribble") else ident_of
+                    res = h.obj.map(fn, max_worker=op["max_worker"], verbose=op["verbose"])
                     res = list(res)
                 except Exception as e:  # noqa: BLE001
                     if self.any_bad_unloaded(h.bases()):
@@ -719,14 +745,19 @@ class Sim:
             if h is not None:
                 hk = h.kind
                 mark = len(w.open_log)
+                delta = float(op.get("delta", 1))
                 if op.get("shared"):
                     if getattr(self, "shared_pt", None) is None:
-                        self.shared_pt = PopulationTransform(_make_mark_transform())
+                        self.shared_mark = _make_mark_transform()
+                        self.shared_pt = PopulationTransform(self.shared_mark)
                     else:
                         w.probe("c19.population_transform_object_applied_again")
                     pt = self.shared_pt
+                    self.shared_mark.delta = delta  # the caller re-parameterises its transform between applications
                 else:
-                    pt = PopulationTransform(_make_mark_transform())
+                    mk = _make_mark_transform()
+                    mk.delta = delta
+                    pt = PopulationTransform(mk)
                 try:
                     obj = pt(h.obj)
                 except Exception as e:  # noqa: BLE001
@@ -740,15 +771,40 @@ class Sim:
                     else:
                         raise Violation("unexpected_exception", "PopulationTransform", f"{type(e).__name__}: {e}"[:300])
                 if obj is not None:
-                    t = Handle("T", obj, h.n, parent=h)
+                    t = Handle("T", obj, h.n, parent=h, delta=delta)
                     returned = []
                     if len(obj) != h.n:
                         raise Violation("wrong_len", "PopulationTransform", f"{len(obj)} trees for {h.n}")
-                    for k in range(h.n):
-                        returned.append(self.identify(obj[k], t.resolve(k), "PopulationTransform"))
-                    self.settle(mark, returned, False, "PopulationTransform")
-                    self.handles.append(t)
-                    outcome = "ok"
+                    failed = False
+                    if op.get("defer"):
+                        # the result is looked at LATER (after the transform object was re-parameterised and applied
+                        # again): applying a transform to a population asks for every tree, so whatever this step
+                        # opened was requested - the ledger still holds every file to one read
+                        seen = set()
+                        for rel in w.open_log[mark:]:
+                            for b in h.bases():
+                                rp = rel[len(b.root) + 1:]
+                                if rel.startswith(b.root + "/") and rp in b.files and (b.root, rp) not in seen and rel not in self.bad:
+                                    seen.add((b.root, rp))
+                                    returned.append((b, rp))
+                        w.probe("c19.transformed_population_read_later")
+                    else:
+                        for k in range(h.n):
+                            try:
+                                tk = obj[k]
+                            except Exception as e:  # noqa: BLE001
+                                # a transform applied lazily meets the damaged file only now: fine when that file is
+                                # the one asked for, a violation otherwise
+                                if not self.may_fail(t, k):
+                                    raise Violation("unexpected_exception", "PopulationTransform",
+                                                    f"element {k}: {type(e).__name__}: {e}"[:300])
+                                failed = True
+                                break
+                            returned.append(self.identify(tk, t.resolve(k), "PopulationTransform"))
+                    self.settle(mark, returned, failed, "PopulationTransform")
+                    if not failed:
+                        self.handles.append(t)
+                    outcome = "raised" if failed else "ok"
         elif kind == "fault":
             cands = sorted(f for f, v in self.layout.items()
                            if v[0] == "file" and f.endswith(".swc") and f not in self.bad)
